@@ -16,12 +16,69 @@ WR = "WebSocketReader"
 RFC_SENDABLE = {1000, 1001, 1002, 1003, 1007, 1008, 1009, 1010, 1011, 1012, 1013, 1014}
 
 
+def _flag_value(fn_node, name, at):
+    """The test a local flag stands for at `at`: `name` has exactly one definition `name = <comparison | and/or | not ...>`, that
+    definition is an earlier sibling of `at` or of one of its ancestors (it has been executed, in this iteration, whenever `at` is
+    reached), and nothing the expression reads is assigned between the two.  None otherwise (the literal stays as written)."""
+    ds = norm.fn_defs(fn_node).defs.get(name, [])
+    if len(ds) != 1 or not isinstance(ds[0][0], (ast.Assign, ast.AnnAssign)) or not isinstance(ds[0][1], (ast.Compare, ast.BoolOp, ast.UnaryOp)):
+        return None
+    dn, val = ds[0]
+    if isinstance(val, ast.UnaryOp) and not isinstance(val.op, ast.Not):
+        return None
+    if any(isinstance(s, (ast.Call, ast.Await, ast.NamedExpr, ast.Yield, ast.YieldFrom, ast.Lambda)) for s in ast.walk(val)):
+        return None  # only pure reads of names / attributes / constants
+    n, dom = at, False
+    while n is not None and not isinstance(n, (ast.FunctionDef, ast.AsyncFunctionDef, ast.Lambda)):
+        blk = PC._block_of(n) if isinstance(n, ast.stmt) else None
+        if blk is not None and any(s is dn for s in blk[: blk.index(n)]):
+            dom = True
+            break
+        n = getattr(n, "parent", None)
+    if not dom:
+        return None
+    reads = {norm.raw(s) for s in ast.walk(val) if isinstance(s, (ast.Name, ast.Attribute))}
+    lo, hi = getattr(dn, "end_lineno", dn.lineno), at.lineno
+    for s in ast.walk(fn_node):
+        if isinstance(s, (ast.Name, ast.Attribute)) and isinstance(getattr(s, "ctx", None), (ast.Store, ast.Del)) and lo < s.lineno <= hi and norm.raw(s) in reads:
+            return None
+    return val
+
+
+def _expand_flags(cl, fn_node, at):
+    """Path condition with every literal that is a local boolean flag (`is_control = opcode > 0x7`) replaced by the test it was
+    bound to: a condition tested through a named flag is the same condition."""
+    cl0 = cl
+    for rnd in range(3):
+        out, changed = [], False
+        for c in cl:
+            acc = [frozenset()]
+            for l in c:
+                v = _flag_value(fn_node, l.text, at) if l.text.isidentifier() else None
+                if v is None:
+                    acc = [a | {l} for a in acc]
+                else:
+                    changed = True
+                    acc = [a | s for a in acc for s in norm.cnf_raw(v, l.pos)]
+            for a in acc:
+                if a not in out and not any(l.neg() in a for l in a):
+                    out.append(a)
+        if not changed:
+            if rnd == 0:
+                return cl0  # no flag on the way: the path condition as computed
+            break
+        cl = out
+        if len(cl) > norm.MAX_CLAUSES:
+            break
+    return PC.simplify(cl)
+
+
 def ws_raises(fn, raw):
     out = []
     for n in ast.walk(fn.node):
         if isinstance(n, ast.Raise) and isinstance(n.exc, ast.Call) and norm.raw(n.exc.func) == "WebSocketError" and n.exc.args:
             code = norm.raw(n.exc.args[0])
-            cl = PC.pc(n, raw=raw)
+            cl = _expand_flags(PC.pc(n, raw=raw), fn.node, n)
             out.append((n, code, cl, {str(next(iter(c))) for c in cl if len(c) == 1}, [frozenset(str(l) for l in c) for c in cl if len(c) > 1]))
     return out
 
@@ -41,20 +98,50 @@ def _fmt_units(units):
     return [x if isinstance(x, str) else x[0] for x in units]
 
 
-def need(chk, rid, what, fn, raises, code, units=(), clauses=(), allow=()):
+def _table(cl, table):
+    """table = (variable, domain, want, description): the clauses of the path condition that speak of nothing but the variable, evaluated on every
+    value of the domain, hold exactly where `want` does - however the test is spelled (`x` / `len(x) != 0` / an earlier guard that
+    returned).  Returns the unit literals so explained, or None (no such clause, not evaluable, or a different set of values)."""
+    var, domain, want, _descr = table
+    about = []
+    for c in cl:
+        if not c:
+            continue
+        try:
+            exprs = [(ast.parse(l.text, mode="eval").body, l.pos) for l in c]
+        except SyntaxError:
+            continue
+        if all({s.id for s in ast.walk(e) if isinstance(s, ast.Name)} - {"len", "bool"} == {var} for e, _p in exprs):
+            about.append((c, exprs))
+    if not about:
+        return None
+    try:
+        for v in domain:
+            if all(any(bool(Evaluator({var: v}).ev(e)) == p for e, p in exprs) for _c, exprs in about) != bool(want(v)):
+                return None
+    except (AnalysisError, TypeError, ValueError, KeyError):
+        return None
+    return {str(next(iter(c))) for c, _e in about if len(c) == 1}
+
+
+def need(chk, rid, what, fn, raises, code, units=(), clauses=(), allow=(), table=None):
     """A WebSocketError(code) raise exists whose PC has all the unit literals and disjunctive clauses - and nothing else that narrows
-    it: every further positive literal must be neutral (dispatch) or listed in `allow` with a reason at the call site."""
+    it: every further positive literal must be neutral (dispatch) or listed in `allow` with a reason at the call site.
+    `table`: a part of the condition that is demanded by value (see _table) instead of by spelling."""
     weak = None
+    tdesc = [table[3]] if table else []
+    tab = {id(n): (_table(cl, table) if table else set()) for n, c, cl, u, d in raises}
+    raises = [r for r in raises if tab[id(r[0])] is not None]
     for n, c, cl, u, d in raises:
         if c != f"WSCloseCode.{code}":
             continue
         if all(_has_unit(x, u) for x in units) and all(any(set(cx) == set(dx) for dx in d) for cx in clauses):
-            flat = {a for x in units for a in ((x,) if isinstance(x, str) else x)}
+            flat = {a for x in units for a in ((x,) if isinstance(x, str) else x)} | tab[id(n)]
             extra = sorted(x for x in u if x not in flat and not _neutral(x) and x not in allow)
             if extra:
                 weak = weak or (n, extra)
                 continue
-            chk.ok(f"C12.rej.{rid}", n, f"{what}: WebSocketError({code}) under " + " & ".join(_fmt_units(units) + ["[" + " | ".join(sorted(c2)) + "]" for c2 in clauses]))
+            chk.ok(f"C12.rej.{rid}", n, f"{what}: WebSocketError({code}) under " + " & ".join(_fmt_units(units) + tdesc + ["[" + " | ".join(sorted(c2)) + "]" for c2 in clauses]))
             return n
     if weak:
         chk.violation(f"C12.rej.{rid}", weak[0], K.short(weak[0], 60), "rejection not conditional on " + " & ".join(weak[1]),
@@ -65,7 +152,7 @@ def need(chk, rid, what, fn, raises, code, units=(), clauses=(), allow=()):
     if other:
         chk.violation(f"C12.rej.{rid}", other[0][0], K.short(other[0][0], 60), f"close code WSCloseCode.{code}", f"{what}: the violation is reported with {other[0][1]} instead of {code}")
     else:
-        chk.violation(f"C12.rej.{rid}", fn, f"rejection[{what}]", " & ".join(_fmt_units(units) + ["[" + " | ".join(sorted(c2)) + "]" for c2 in clauses]),
+        chk.violation(f"C12.rej.{rid}", fn, f"rejection[{what}]", " & ".join(_fmt_units(units) + tdesc + ["[" + " | ".join(sorted(c2)) + "]" for c2 in clauses]),
                       f"{what}: required rejection with close code {code} not found (the frame would be delivered or mis-framed instead of ending the stream)")
     return None
 
@@ -137,7 +224,10 @@ def run(chk):
     need(chk, "members", "too many deflate members", hf, R2, "MESSAGE_TOO_BIG", units=["(EXCEPT(TooManyMembersError))", "(compressed)"], allow=("(fin)",))
     need(chk, "utf8", "invalid UTF-8 in a text message", hf, R2, "INVALID_TEXT", units=["(EXCEPT(UnicodeDecodeError))", "(opcode == OP_CODE_TEXT)"], allow=("(fin)", "(self._decode_text)"))  # text is validated when the message is complete; decode_text=False is the documented opt-out (payload handed over as bytes)
     need(chk, "closeutf8", "invalid UTF-8 in a close reason", hf, R2, "INVALID_TEXT", units=["(EXCEPT(UnicodeDecodeError))", "(opcode == OP_CODE_CLOSE)"])
-    need(chk, "close1", "one-byte close payload", hf, R2, "PROTOCOL_ERROR", units=["(payload)", "(len(payload) < 2)", "(opcode == OP_CODE_CLOSE)"])
+    # a Close payload is empty or starts with a 2-byte code: exactly the one-byte payload is refused here (the empty one is a valid Close,
+    # the longer ones are judged by their code) - decided on the payload lengths 0..3 and 125, whatever the order / spelling of the tests
+    need(chk, "close1", "one-byte close payload", hf, R2, "PROTOCOL_ERROR", units=["(opcode == OP_CODE_CLOSE)"],
+         table=("payload", [b"", b"\x03", b"\x03\xe8", b"\x03\xe8x", b"\x03\xe8" + b"x" * 123], lambda p: len(p) == 1, "(payload) & (len(payload) < 2)"))
     # strict decoders: payload.decode("utf-8") without an error handler that hides invalid bytes
     for call, b in K.exprs(hf, "$P.decode($E, ...)"):
         if len(call.args) > 1 or any(k.arg == "errors" for k in call.keywords):
@@ -260,7 +350,41 @@ def run(chk):
                 chk.ok("C12.mask", c, "payload is unmasked with the frame's own key, exactly when its mask bit is set")
             else:
                 chk.violation("C12.mask", c, K.short(c), "websocket_mask(self._frame_mask, ...) under self._has_mask", "payload unmasked under a condition other than the frame's mask bit")
-    chk.expect_count("C12.mask", nm, 4, "uses of the stored masking key / unmask calls")
+    # How many unmask sites there are is a matter of layout (one per fragments x mask branch, or one after the bytes were gathered); what the
+    # property needs is that every frame whose mask bit is set is unmasked before it is delivered: no path reaches _handle_frame() that
+    # neither took the "mask bit clear" side of a test of self._has_mask nor passed websocket_mask(self._frame_mask, ...)
+    gm = cfg_of(fdn.node)
+    handed = [n_ for n_ in gm.nodes if n_.in_finally_copy is None and n_.kind == "stmt" and any(norm.raw(c.func) == "self._handle_frame" for c in K.node_calls(n_))]
+    if not handed:
+        chk.analysis_error("C12.mask: the hand-over of a complete frame (`self._handle_frame(...)`) was not found in WebSocketReader._feed_data")
+    else:
+        def _unmasks(n_):
+            return n_.kind == "stmt" and any(isinstance(c.func, ast.Name) and c.func.id == "websocket_mask" and c.args and norm.raw(c.args[0]) == "self._frame_mask" for c in K.node_calls(n_))
+
+        def _bit_clear(n_, k):
+            return n_.kind == "test" and k in ("T", "F") and any(len(c) == 1 and next(iter(c)) == norm.Lit("self._has_mask", False) for c in norm.cnf_raw(n_.ast, k == "T"))
+
+        prev, todo, hit = {gm.entry.id: None}, [gm.entry], None
+        while todo and hit is None:
+            cur = todo.pop(0)
+            for t, k in gm.succs(cur, EXPLICIT):
+                if t.id in prev or _bit_clear(cur, k) or _unmasks(t):
+                    continue
+                prev[t.id] = cur
+                if t in handed:
+                    hit = t
+                    break
+                todo.append(t)
+        if hit is None:
+            chk.ok("C12.mask", handed[0].ast, "every frame handed to _handle_frame() was unmasked with its key, or its mask bit was tested clear on the way")
+        else:
+            path = [hit]
+            while prev[path[-1].id] is not None:
+                path.append(prev[path[-1].id])
+            chk.violation("C12.mask", hit.ast, K.short(hit.ast, 70), "websocket_mask(self._frame_mask, <payload>) on every path with self._has_mask",
+                          "a frame can reach _handle_frame() without its mask bit having been tested clear and without being unmasked: a masked frame (every client frame) is delivered as the XOR-ed wire bytes",
+                          path=gm.fmt_path(list(reversed(path))))
+    chk.expect_count("C12.mask", nm, 2, "uses of the stored masking key / unmask calls")
     for fn, hits in prog.writers(repo, [MOD], "_frame_mask").items():
         if fn.name not in ("__init__", "_feed_data"):
             chk.violation("C12.mask", hits[0][0], K.short(hits[0][0]), f"writer {fn.qualname}", "the masking key is written outside the frame parser")
